@@ -245,7 +245,7 @@ theorem tickCbL_cons (l : LCfg) (cb : Cb) (hex : Ex l) (htr : l.trans = none) (h
 /-- what `runActionL`'s "retracted while transitioning" test relies on: a pending pause action that is run with a next state is
 recorded in `_pausing` -/
 def PIr (c : Cfg) (i : Nat) (next : Option SObj) : Prop :=
-  ∀ a s, c.actions[i]? = some a → a.status = .pending → a.kind = .pause → next = some s → c.pausing.isSome = true
+  ∀ s, actionStatus c i = .pending → actionKind c i = some .pause → next = some s → c.pausing.isSome = true
 
 theorem actionStatus_of_actions {c c' : Cfg} (h : c'.actions = c.actions) (i : Nat) : actionStatus c' i = actionStatus c i := by
   unfold actionStatus; rw [h]
@@ -282,7 +282,7 @@ theorem runActionL_cons (l : LCfg) (i : Nat) (next : Option SObj) (hef : l.entry
           have ht := transitionToL_cons l s hef
           have hpa : (transitionToL F0 l s).c.pausing.isNone = false := by
             rw [ht.c, (transitionTo_pf l.c s).pausing]
-            have := hpi a s ha hp' hk rfl
+            have := hpi s hst (by simp [actionKind, ha, hk]) rfl
             cases hq : l.c.pausing with
             | none => rw [hq] at this; cases this
             | some j => rfl
@@ -366,13 +366,13 @@ end L
 /-- **the invariant of the original model that conservativity needs**: a pending pause action in the interrupt slot is the
 one recorded in `_pausing` (so `play()` retracts it by cancelling it, and nothing else can clear `_pausing` while it is pending) -/
 def PI (c : Cfg) : Prop :=
-  ∀ i a, c.interrupt = some i → c.actions[i]? = some a → a.status = .pending → a.kind = .pause → c.pausing = some i
+  ∀ i, c.interrupt = some i → actionStatus c i = .pending → actionKind c i = some .pause → c.pausing = some i
 
 theorem PI.of_eq {c c' : Cfg} (h : PI c) (h1 : c'.interrupt = c.interrupt) (h2 : c'.actions = c.actions)
     (h3 : c'.pausing = c.pausing) : PI c' := by
-  unfold PI; rw [h1, h2, h3]; exact h
+  unfold PI actionStatus actionKind; rw [h1, h2, h3]; exact h
 theorem PI.of_none {c : Cfg} (h : c.interrupt = none) : PI c := by
-  intro i a hi; rw [h] at hi; cases hi
+  intro i hi; rw [h] at hi; cases hi
 theorem PI.keep {c c' : Cfg} (h : PI c) (k : Keep c c') : PI c' := h.of_eq k.2.2.1 k.2.2.2.1 k.2.2.2.2.2
 
 /-- the `except` clauses keep what `runActionL` relies on: an action installed by them is run without a next state -/
@@ -383,12 +383,12 @@ theorem prepare_pir (c : Cfg) (r : StepEnd) (h : PI c) :
   unfold prepare
   split
   · intro i hi; exact (hnone _ _ hi).elim
-  · intro i hi a s ha hp hk _
-    dsimp only at hi ha ⊢
-    rw [h i a hi ha hp hk]; rfl
+  · intro i hi s hp hk _
+    dsimp only at hi hp hk ⊢
+    rw [h i hi hp hk]; rfl
   · split
-    · intro i _ a s _ _ _ hn; cases hn
-    · intro i _ a s _ _ _ hn; cases hn
+    · intro i _ s _ _ hn; cases hn
+    · intro i _ s _ _ hn; cases hn
   · intro i hi; exact (hnone _ _ hi).elim
 
 namespace L
